@@ -8,7 +8,7 @@
 From Coq Require Import List ZArith Bool Permutation.
 From DD Require Import Model.Circuit Model.Query Model.Edit Proofs.Semantics Proofs.CountsA Proofs.QueryDefs
   Proofs.EditReduce Proofs.EditRenumber Proofs.EditUnit Proofs.EditSpec Proofs.EditDispatch
-  Proofs.EditWF Proofs.EditCore Proofs.EditQueries.
+  Proofs.EditWF Proofs.EditCore Proofs.EditQueries Proofs.EditReflattenWF Proofs.EditUnitNew.
 Import ListNotations.
 Open Scope Z_scope.
 
@@ -380,6 +380,109 @@ Theorem C11_unit_enum_root : forall (C : circuit) (n : nat) (l : Z),
 Proof. exact unit_edit_enum_root. Qed.
 Print Assumptions C11_unit_enum_root.
 
+(* ---------- (b') the unit-clause edit over a NEW variable (unit_edit_new, repair F27) ----------
+   C is WF over n features, n < |l| (any gap: the features strictly between n and |l| become
+   optional), n' = |l|.  The edited vector is WF / WFQ over n' - for a root that already is an And
+   node (it takes the new children) and for every other root (a fresh And root above it) - and it
+   denotes C /\ l over n' features.  `Models C n'` IS the lifted truth table: the models of C over
+   n features extended by every assignment of the features n+1..n' (C11_models_lift). *)
+
+(* FULL: list equality, both sides filters of the truth table over n' = |l| features *)
+Theorem C11_unit_new_sem : forall (C : circuit) (n : nat) (l : Z),
+  WF C n -> Z.of_nat n < Z.abs l ->
+  Models (unit_edit_new C n l) (Z.to_nat (Z.abs l)) =
+  filter (contains_all [l]) (Models C (Z.to_nat (Z.abs l))).
+Proof. exact unit_new_sem. Qed.
+Print Assumptions C11_unit_new_sem.
+
+(* what the right-hand side ranges over: m is a model of C over n' features iff it is a
+   configuration over n' features whose restriction to the first n is a model of C over n *)
+Theorem C11_models_lift : forall (C : circuit) (n : nat) (l : Z),
+  WF C n -> Z.of_nat n < Z.abs l -> forall m : cfg, all_reachable C = true ->
+  (In m (Models C (Z.to_nat (Z.abs l))) <->
+   In m (all_cfgs (Z.to_nat (Z.abs l))) /\ In (canon n (asg_of m)) (Models C n)).
+Proof. exact models_lift. Qed.
+Print Assumptions C11_models_lift.
+
+(* pointwise, for every assignment *)
+Theorem C11_unit_new_eval : forall (C : circuit) (n : nat) (l : Z),
+  WF C n -> Z.of_nat n < Z.abs l -> forall s : asg,
+  eval_root s (unit_edit_new C n l) = eval_root s C && lit_true s l.
+Proof. exact unit_new_eval. Qed.
+Print Assumptions C11_unit_new_eval.
+
+Theorem C11_unit_new_sem_assumptions : forall (C : circuit) (n : nat) (l : Z),
+  WF C n -> Z.of_nat n < Z.abs l -> forall A : cfg,
+  ModelsA (unit_edit_new C n l) (Z.to_nat (Z.abs l)) A = ModelsA C (Z.to_nat (Z.abs l)) (l :: A).
+Proof. exact unit_new_sem_assumptions. Qed.
+Print Assumptions C11_unit_new_sem_assumptions.
+
+(* the cached root count: every skipped feature doubles it *)
+Theorem C11_unit_new_count : forall (C : circuit) (n : nat) (l : Z),
+  WF C n -> Z.of_nat n < Z.abs l ->
+  root_count (unit_edit_new C n l) = 2 ^ (Z.abs l - 1 - Z.of_nat n) * root_count C.
+Proof. exact unit_new_count. Qed.
+Print Assumptions C11_unit_new_count.
+
+(* well-formedness over n' features, unconditionally (no dead node can arise) *)
+Theorem C11_unit_new_WF : forall (C : circuit) (n : nat) (l : Z),
+  WF C n -> Z.of_nat n < Z.abs l -> WF (unit_edit_new C n l) (Z.to_nat (Z.abs l)).
+Proof. exact unit_new_WF. Qed.
+Print Assumptions C11_unit_new_WF.
+
+Theorem C11_unit_new_WFQ : forall (C : circuit) (n : nat) (l : Z),
+  WF C n -> Z.of_nat n < Z.abs l -> WFQ C n -> WFQ (unit_edit_new C n l) (Z.to_nat (Z.abs l)).
+Proof. exact unit_new_WFQ. Qed.
+Print Assumptions C11_unit_new_WFQ.
+
+(* ... which rests on: the re-flattening of ANY well-formed vector is well-formed (what is not
+   reachable from the root - here the old And root - disappears) *)
+Theorem C11_reflatten_WF : forall (P : circuit) (n : nat), WF P n -> WF (reflatten P) n.
+Proof. exact reflatten_WF. Qed.
+Print Assumptions C11_reflatten_WF.
+
+Theorem C11_reflatten_WFQ : forall (P : circuit) (n : nat),
+  WF P n -> unique_leaves P = true -> lits_nonzero P = true -> WFQ (reflatten P) n.
+Proof. exact reflatten_WFQ. Qed.
+Print Assumptions C11_reflatten_WFQ.
+
+(* ... hence the ALGORITHMS on the edited vector answer for the conjunction with l over n' features *)
+Theorem C11_unit_new_then_count : forall (C : circuit) (n : nat) (l : Z),
+  WF C n -> Z.of_nat n < Z.abs l -> forall (A : cfg) (s : scratch),
+  WFQ C n -> in_range (Z.to_nat (Z.abs l)) A -> Clean (unit_edit_new C n l) s ->
+  let '(s', r) := execute_query (build (unit_edit_new C n l) (Z.to_nat (Z.abs l))) A s in
+  r = MCA C (Z.to_nat (Z.abs l)) (l :: A) /\ Clean (unit_edit_new C n l) s'.
+Proof. exact unit_new_then_count. Qed.
+Print Assumptions C11_unit_new_then_count.
+
+Theorem C11_unit_new_then_sat : forall (C : circuit) (n : nat) (l : Z),
+  WF C n -> Z.of_nat n < Z.abs l -> forall A : cfg,
+  WFQ C n -> 0 < root_count C -> in_range (Z.to_nat (Z.abs l)) A ->
+  sat (build (unit_edit_new C n l) (Z.to_nat (Z.abs l))) A = (0 <? MCA C (Z.to_nat (Z.abs l)) (l :: A)).
+Proof. exact unit_new_then_sat. Qed.
+Print Assumptions C11_unit_new_then_sat.
+
+(* the cached core (calculate_core, C05_core_exact_WF): the literals of every model that contains l *)
+Theorem C11_unit_new_then_core : forall (C : circuit) (n : nat) (l : Z),
+  WF C n -> Z.of_nat n < Z.abs l -> forall x : Z, 0 < root_count C ->
+  (In x (calculate_core (unit_edit_new C n l) (Z.to_nat (Z.abs l))) <->
+   (forall m, In m (Models C (Z.to_nat (Z.abs l))) -> In l m -> In x m)).
+Proof. exact unit_new_then_core. Qed.
+Print Assumptions C11_unit_new_then_core.
+
+(* the edit implements edit_spec for a unit clause over a new variable: the formula is conjoined
+   with l and the feature count grows to |l| (F: a CNF over the n features with the models of C) *)
+Theorem C11_unit_new_is_edit_spec : forall (C : circuit) (n : nat) (l : Z),
+  WF C n -> Z.of_nat n < Z.abs l -> forall F : cnf,
+  all_reachable C = true ->
+  (forall c x, In c F -> In x c -> 1 <= Z.abs x <= Z.of_nat n) ->
+  Models C n = cnf_models_n F n ->
+  Models (unit_edit_new C n l) (Z.to_nat (Z.abs l)) =
+    cnf_models_n (fst (edit_spec F n [[l]] [])) (Z.to_nat (Z.abs l))
+  /\ snd (edit_spec F n [[l]] []) = Z.to_nat (Z.abs l).
+Proof. exact unit_new_is_spec. Qed.
+Print Assumptions C11_unit_new_is_edit_spec.
+
 (* the re-flattening model (DfsPostOrder over the vector) preserves the function and the count *)
 Theorem C11_reflatten : forall (C : circuit) (s : asg),
   C <> [] -> idx_ok C = true ->
@@ -481,17 +584,34 @@ Example ex_c11_dispatch :
   prepare [([1; -1], AddC); ([2; 2], AddC); ([], RemoveC); ([3; 1], RemoveC)] = Prepared [[2]] [[3; 1]].
 Proof. vm_compute. repeat split. Qed.
 
-(* the unit edit over a NEW variable: x1 & (x2 <-> x3) over 3 features, add the unit clause -5:
-   feature 4 becomes optional, the models are the old ones with -5 (and either value of 4); an Or
-   root gets a fresh And root *)
+(* the unit edit over a NEW variable.  Hypotheses satisfiable, conclusions not trivial:
+   gap 0, And root (x1 & (x2 <-> x3), add 4): the root takes the literal, the count stays 2;
+   gap 2, And root (add -6): two or-triangles, count 2 * 2^2 = 8, core -6 and 1;
+   gap 2, Or root (x1 | -x1, add 4): a fresh And root above the Or;
+   gap 0, literal root (-x1, add 2); n = 0, TrueN root (add -2): the TrueN stays below the new root *)
+Definition ex_or_root : circuit := [Lit 1; Lit (-1); Or [0; 1]%nat].
 Example ex_c11_unit_new :
+  check_wf ex_c11 3 = true /\
+  unit_edit_new ex_c11 3 4 =
+    [Lit (-3); Lit (-2); And [1; 0]%nat; Lit 3; Lit 2; And [4; 3]%nat; Or [5; 2]%nat; Lit 1; Lit 4;
+     And [8; 7; 6]%nat] /\
+  check_wf (unit_edit_new ex_c11 3 4) 4 = true /\ root_count (unit_edit_new ex_c11 3 4) = 2 /\
+  check_wf (unit_edit_new ex_c11 3 (-6)) 6 = true /\ root_count (unit_edit_new ex_c11 3 (-6)) = 8 /\
+  length (Models (unit_edit_new ex_c11 3 (-6)) 6) = 8%nat /\
+  calculate_core (unit_edit_new ex_c11 3 (-6)) 6 = [-6; 1] /\
   Models (unit_edit_new ex_c11 3 (-5)) 5 =
     [[1; 2; 3; 4; -5]; [1; 2; 3; -4; -5]; [1; -2; -3; 4; -5]; [1; -2; -3; -4; -5]] /\
-  check_wf (unit_edit_new ex_c11 3 (-5)) 5 = true /\
-  root_count (unit_edit_new ex_c11 3 (-5)) = 4 /\
-  unit_edit_new [Lit 1; Lit (-1); Or [0; 1]%nat] 1 2 =
-    [Lit (-1); Lit 1; Or [1; 0]%nat; Lit 2; And [3; 2]%nat] /\
-  Models (unit_edit_new [Lit 1; Lit (-1); Or [0; 1]%nat] 1 2) 2 = [[1; 2]; [-1; 2]].
+  check_wf ex_or_root 1 = true /\
+  unit_edit_new ex_or_root 1 4 =
+    [Lit (-1); Lit 1; Or [1; 0]%nat; Lit 2; Lit (-2); Or [4; 3]%nat; Lit 3; Lit (-3); Or [7; 6]%nat;
+     Lit 4; And [9; 8; 5; 2]%nat] /\
+  check_wf (unit_edit_new ex_or_root 1 4) 4 = true /\ root_count (unit_edit_new ex_or_root 1 4) = 8 /\
+  check_wf [Lit (-1)] 1 = true /\ unit_edit_new [Lit (-1)] 1 2 = [Lit (-1); Lit 2; And [1; 0]%nat] /\
+  check_wf (unit_edit_new [Lit (-1)] 1 2) 2 = true /\ Models (unit_edit_new [Lit (-1)] 1 2) 2 = [[-1; 2]] /\
+  check_wf [TrueN] 0 = true /\
+  unit_edit_new [TrueN] 0 (-2) = [TrueN; Lit 1; Lit (-1); Or [2; 1]%nat; Lit (-2); And [4; 3; 0]%nat] /\
+  check_wf (unit_edit_new [TrueN] 0 (-2)) 2 = true /\
+  Models (unit_edit_new [TrueN] 0 (-2)) 2 = [[1; -2]; [-1; -2]].
 Proof. vm_compute. repeat split. Qed.
 
 (* the cache predicate: the inverse spelled in another order matches, a partial inverse and a
